@@ -45,6 +45,12 @@ KeyValBlind(e) == CASE e.op = "eq" -> [op |-> "eq", col |-> e.col] [] e.op = "no
 KeySetLike(e) == CASE e.op = "eq" -> e [] e.op = "not" -> [op |-> "not", e |-> KeySetLike(e.e)]
                    [] OTHER -> [op |-> IF Len(e.es) = 1 THEN "one" ELSE e.op, es |-> {KeySetLike(e.es[i]) : i \in DOMAIN e.es}]
 
+\* a structural hash that streams the tree in prefix order without operand counts or end markers:
+\* a nested operator that is not the last operand can swallow its parent's trailing operands
+RECURSIVE KeyStream(_)
+KeyStream(e) == CASE e.op = "eq"  -> <<e>>
+                  [] e.op = "not" -> <<[op |-> "n"]>> \o KeyStream(e.e)
+                  [] OTHER        -> <<[op |-> e.op]>> \o FlattenSeq([i \in DOMAIN e.es |-> KeyStream(e.es[i])])
 \* meaning of an expression: the row shapes (over the given columns / values) it accepts
 Shapes(cols, vals) == UNION {[S -> vals] : S \in SUBSET cols}
 Meaning(e, shapes) == {r \in shapes : Sat(r, e)}
